@@ -563,8 +563,9 @@ func genImportEqCase(rt *rapid.T) ImportEqCase {
 			fmt.Fprintf(&ref, "module.exports = { main: p(%d, 1) };\n", id)
 		case 1:
 			both(fmt.Sprintf("function entry() { return p(%d, 2); }\n", id))
-			ts.WriteString("export = entry;\n")
-			ref.WriteString("module.exports = entry;\n")
+			// (a function exported directly would expose Function#name, which minification may change)
+			ts.WriteString("export = { run: entry, value: entry() };\n")
+			ref.WriteString("module.exports = { run: entry, value: entry() };\n")
 		default:
 			both(fmt.Sprintf("const result = [p(%d, 3)];\n", id))
 			ts.WriteString("export = result;\n")
